@@ -1252,7 +1252,7 @@ fn id_choice() -> impl Strategy<Value = IdChoice> {
     ]
 }
 
-fn name_strategy() -> impl Strategy<Value = String> {
+pub fn name_strategy() -> impl Strategy<Value = String> {
     prop_oneof![4 => "[a-z]{1,8}", 1 => "[ -~]{1,16}", 1 => "\\PC{1,5}"]
 }
 
